@@ -312,6 +312,41 @@ pub fn plan(property: &str, tier: Tier) -> Option<Plan>
                 c.sym_ents = vec![];
                 items.push(item(c, "rich2", &format!("N={n}")));
             }
+            // differential probe: after arbitrary explored trees a fixed probe tree (dedicated actors 3 and 4, event
+            // type B, entity 1 -- none of which the explored alphabet can name) must behave as on a fresh world
+            let ns: &[u32] = if q { &[4] } else { &[4, 5] };
+            for &n in ns
+            {
+                let mut c = Config::base(&format!("C11/probe/N{n}"));
+                c.actors = vec![Variant::Plain, Variant::Plain, Variant::Erring, Variant::Plain, Variant::Plain];
+                c.n_ents = 2;
+                c.setup = vec![
+                    Op::Register(1, Bundle::two(Trig::Broadcast(Ev::A), Trig::EntityEvent(Ev::A, 0)), Mode::Persistent),
+                    Op::Register(2, Bundle::one(Trig::Broadcast(Ev::A)), Mode::Persistent),
+                    Op::Register(4, Bundle::two(Trig::Broadcast(Ev::B), Trig::EntityEvent(Ev::B, 1)), Mode::Persistent),
+                    Op::Register(3, Bundle::one(Trig::EntityEvent(Ev::B, 1)), Mode::Persistent),
+                ];
+                let alpha: AlphabetFn = Arc::new(|_i: &DynInfo| {
+                    let mut v = Vec::new();
+                    for a in 0..3u8 { v.push(Op::Run(a)); v.push(Op::SysEvent(a)); v.push(Op::DespawnSys(a)); }
+                    v.push(Op::Broadcast(Ev::A));
+                    v.push(Op::EntityEvent(Ev::A, 0));
+                    v.push(Op::Despawn(0));
+                    v
+                });
+                c.top = alpha.clone();
+                c.script = alpha;
+                c.max_top = 2;
+                c.budget = n;
+                c.max_runs = 300;
+                c.final_ops = vec![Op::Run(3), Op::Broadcast(Ev::B)];
+                c.fixed_scripts = vec![
+                    (3, 0, vec![Op::Broadcast(Ev::B), Op::SysEvent(3), Op::Run(3), Op::EntityEvent(Ev::B, 1), Op::SysEvent(4)]),
+                    (3, 1, vec![Op::Run(4)]),
+                    (4, 0, vec![Op::SysEvent(3), Op::Run(4)]),
+                ];
+                items.push(item(c, "probe", &format!("N={n}")));
+            }
             // chained auto-despawn: a trigger entity is itself auto-despawned and owns the last handle of reactors
             let ns: &[u32] = if q { &[4] } else { &[4, 5] };
             for &n in ns
@@ -415,6 +450,32 @@ pub fn plan(property: &str, tier: Tier) -> Option<Plan>
                 c.budget = n;
                 c.max_runs = 400;
                 items.push(item(c, "faults", &format!("N={n}")));
+            }
+            // exactly one listener per event (the reader count of one): a separate universe, because with persistent
+            // registrations the number of listeners of a type never shrinks
+            let ns: &[u32] = if q { &[4] } else { &[4, 5, 6] };
+            for &n in ns
+            {
+                let mut c = Config::base(&format!("C05/single/N{n}"));
+                c.actors = vec![Variant::Plain, Variant::Plain, Variant::Plain];
+                c.n_ents = 1;
+                c.setup = vec![
+                    Op::Register(0, Bundle::one(Trig::Broadcast(Ev::A)), Mode::Persistent),
+                    Op::Register(1, Bundle::one(Trig::EntityEvent(Ev::A, 0)), Mode::Persistent),
+                    Op::Register(2, Bundle::one(Trig::AnyEntityEvent(Ev::B)), Mode::Persistent),
+                ];
+                let alpha: AlphabetFn = Arc::new(|i: &DynInfo| {
+                    let mut v = vec![Op::Broadcast(Ev::A), Op::EntityEvent(Ev::A, 0), Op::EntityEvent(Ev::B, 0)];
+                    for a in i.ready_actors() { v.push(Op::DespawnSys(a)); }
+                    v.push(Op::SysEvent(0));
+                    v
+                });
+                c.script = alpha.clone();
+                c.top = alpha;
+                c.max_top = 2;
+                c.budget = n;
+                c.max_runs = 400;
+                items.push(item(c, "single", &format!("N={n}")));
             }
             reports = vec!["C05"];
             rule = "events with 0..3 listeners (entity-scoped + type-wide, taking and non-taking system-event readers) \
